@@ -383,6 +383,11 @@ type c21Op struct {
 	kind byte // 'C' Client, 'H' HostClient, 'L' LBClient
 	hc   int
 	hops []c21Hop
+	// src: where the *Request handed to Do comes from.  0: built by the caller.  't' / 'p': it is the request a
+	// fasthttp.Server received over an in-memory TLS / plaintext connection (a reverse proxy forwarding ctx.Request);
+	// 'T' / 'P': a copy of that request made with CopyTo.  Such a request has the scheme of the connection it
+	// arrived on (https / http) and the host of its Host header.
+	src byte
 }
 
 type c21HCSpec struct {
@@ -439,10 +444,15 @@ func c21Decode(a [][]byte) (wt bool, mode, hook byte, hcs []c21HCSpec, ops []c21
 			ops = append(ops, c21Op{kind: 'K', hc: -1})
 			continue
 		}
+		var src byte
+		if len(s) >= 3 && s[1] == '@' && strings.ContainsRune("tpTP", rune(s[2])) {
+			src = s[2]
+			s = s[:1] + s[3:]
+		}
 		if len(s) < 3 || s[1] != ' ' {
 			return
 		}
-		op := c21Op{kind: s[0], hc: -1}
+		op := c21Op{kind: s[0], hc: -1, src: src}
 		rest := s[2:]
 		switch op.kind {
 		case 'C', 'L':
@@ -481,6 +491,23 @@ func c21Decode(a [][]byte) (wt bool, mode, hook byte, hcs []c21HCSpec, ops []c21
 		}
 		if (op.kind == 'L' && (len(op.hops) != 1 || len(hcs) == 0)) || len(op.hops) > 8 {
 			return
+		}
+		if op.src != 0 {
+			// one hop, one attempt: a later re-parse of a request received over TLS forces the https scheme whatever
+			// URL a redirect or hook puts on it (Request.isTLS), which is not what this harness scripts
+			if len(op.hops) != 1 || len(op.hops[0].retries) != 0 {
+				return
+			}
+			// the received request has the scheme of the front connection and the host of the Host header
+			h := c21URLHost(op.hops[0].url)
+			if h == "" || strings.ContainsAny(h, "/?#@") {
+				return
+			}
+			if op.src == 't' || op.src == 'T' {
+				op.hops[0].url = "https://" + h
+			} else {
+				op.hops[0].url = "http://" + h
+			}
 		}
 		ops = append(ops, op)
 	}
@@ -637,6 +664,29 @@ func c21Ops(a [][]byte) *Case {
 			cl.CloseIdleConnections()
 			for _, hc := range hcs {
 				hc.CloseIdleConnections()
+			}
+			continue
+		}
+		if op.src != 0 {
+			var target func(req *fasthttp.Request, resp *fasthttp.Response) error
+			switch op.kind {
+			case 'C':
+				target = cl.Do
+			case 'H':
+				target = hcs[op.hc].Do
+			case 'L':
+				picked = -1
+				target = lb.Do
+			}
+			perr, ok := c21Proxy(op.src, op.hops[0].url+op.hops[0].path, target)
+			if !ok {
+				c21Excl.RUnlock()
+				rlocked = false
+				return nil // the front hop did not complete: inconclusive
+			}
+			obs[i].err = perr
+			if op.kind == 'L' {
+				obs[i].picked = picked
 			}
 			continue
 		}
@@ -868,6 +918,55 @@ func c21Ops(a [][]byte) *Case {
 		}
 		return Ok()
 	}}
+}
+
+// c21Proxy sends a request for url to a front fasthttp.Server over a fresh in-memory connection (TLS for src t/T,
+// plaintext for p/P); the server's handler hands the request it received (ctx.Request itself, or for T/P a CopyTo
+// copy) to target and reports target's error.  ok=false: the front hop itself failed.
+func c21Proxy(src byte, url string, target func(*fasthttp.Request, *fasthttp.Response) error) (err error, ok bool) {
+	frontTLS := src == 't' || src == 'T'
+	type res struct{ err error }
+	results := make(chan res, 1)
+	srv := &fasthttp.Server{Logger: nopLogger{}, NoDefaultServerHeader: true, Handler: func(ctx *fasthttp.RequestCtx) {
+		req := &ctx.Request
+		if src == 'T' || src == 'P' {
+			cp := fasthttp.AcquireRequest()
+			defer fasthttp.ReleaseRequest(cp)
+			ctx.Request.CopyTo(cp)
+			req = cp
+		}
+		var resp fasthttp.Response
+		results <- res{target(req, &resp)}
+		ctx.SetBodyString("done")
+	}}
+	cli, srvSide := c21NewPipe()
+	go func() {
+		var c net.Conn = srvSide
+		if frontTLS {
+			c = tls.Server(srvSide, c21ServerConfig())
+		}
+		srv.ServeConn(c) //nolint:errcheck
+		c.Close()
+	}()
+	front := &fasthttp.HostClient{Addr: "front.test:1", IsTLS: frontTLS, TLSConfig: &tls.Config{InsecureSkipVerify: true},
+		Dial: func(string) (net.Conn, error) { return cli, nil }, ReadTimeout: c21Patience, MaxIdemponentCallAttempts: 1}
+	req := fasthttp.AcquireRequest()
+	resp := fasthttp.AcquireResponse()
+	defer fasthttp.ReleaseRequest(req)
+	defer fasthttp.ReleaseResponse(resp)
+	req.SetRequestURI(url)
+	ferr := front.Do(req, resp)
+	front.CloseIdleConnections()
+	cli.Close()
+	if ferr != nil {
+		return nil, false
+	}
+	select {
+	case r := <-results:
+		return r.err, true
+	default:
+		return nil, false
+	}
 }
 
 // c21Idle: CloseIdleConnections with slow Closes, running while in-flight requests of the same HostClient finish and
@@ -1136,6 +1235,7 @@ func init() {
 			"URLs over schemes {http, https, HTTP, HTTPS, none, ftp, httpx} x hosts {a.test, A.test, a.test:443, a.test:80, a.test:8443, b.test, [::1], [::1]:443, [::1]:8080, 127.0.0.1} x keep-alive or close; both dialAddr paths (WriteTimeout 0 / >0); " +
 			"HostClient addresses incl. shapes no TLS server name can be derived from ([::1], ::1, 2001:db8::1, [2001:db8::1]) x TLS config {InsecureSkipVerify, verification with derived server name, verification with TLSConfig.ServerName}; " +
 			"18% of the hops have 1..2 first attempts that fail retriably (the peer reads the request and closes) with a RetryIfErr or RetryIf hook rewriting the URL - scheme and host - before the next attempt; " +
+			"12% of the single-hop calls get their *Request from a reverse-proxy source: the request a fasthttp.Server received over an in-memory TLS or plaintext connection (ctx.Request itself or a CopyTo copy) is handed to Client.Do / HostClient.Do / LBClient.Do; " +
 			"30% of the calls are repeated 2..4 times in a row; the peer records the first bytes of every connection (TLS ClientHello or cleartext); " +
 			"addmissingport: AddMissingPort on generated addresses; non-trivial = at least two requests were written; distinct = distinct input",
 		Parallel: true,
@@ -1222,11 +1322,19 @@ func init() {
 					if kind != "L" && r.Chance(35) {
 						nhops = 2 + r.Intn(3)
 					}
+					proxied := nhops == 1 && r.Chance(12)
 					var hs []string
 					for k := 0; k < nhops; k++ {
-						hs = append(hs, withRetries(hop(focus, k > 0), focus))
+						if proxied {
+							hs = append(hs, hop(focus, false))
+						} else {
+							hs = append(hs, withRetries(hop(focus, k > 0), focus))
+						}
 					}
 					s := kind + " "
+					if proxied {
+						s = kind + "@" + string("tTpP"[r.Intn(4)]) + " "
+					}
 					if kind == "H" {
 						s += fmt.Sprintf("%d ", r.Intn(nh))
 					}
